@@ -2118,7 +2118,7 @@ class t2data(object):
             elif self.simulator:
                 for eosname in supported_eos.keys():
                     if self.simulator.endswith(eosname):
-                        autseosname = eosname
+                        aut2eosname = eosname
         else:
             if isinstance(eos, int):
                 eos_from_index = {1: 'EW', 2: 'EWC', 3: 'EWA', 4: 'EWAV'}
